@@ -13,7 +13,8 @@ from props import _cfg
 
 ID = 'C18'
 LEAN_MODULES = ['Proofs.C18']
-REQUIRED = ['C18.keyTransform_join', 'C18.keyTransform_too_deep', 'C18.path_get_eq_nested', 'C18.path_set_eq_nested',
+REQUIRED = ['C18.keyTransform_join', 'C18.keyTransform_too_deep', 'C18.cfgGet_eq_nested', 'C18.cfgSet_eq_nested',
+            'C18.cfgDel_eq_nested', 'C18.legacy_text_route_not_inverse', 'C18.legacy_dump_mutated_nested', 'C18.path_get_eq_nested', 'C18.path_set_eq_nested',
             'C18.path_del_eq_nested', 'C18.get_set_same', 'C18.get_set_other', 'C18.del_removes_only',
             'C18.del_keeps_parent', 'C18.set_missing_parent_errors', 'C18.toYamlSafe_idempotent',
             'C18.toYamlSafe_arrayFree', 'C18.toYamlSafe_same_options', 'C18.roundtrip_file', 'C18.roundtrip_text',
@@ -28,7 +29,10 @@ TRUSTED = ['PyYAML (dump / dump_all / load / load_all with FullLoader) is an ora
 ASSUMPTIONS = ['yaml_roundtrip_safe_tree: yaml.load(yaml.dump(t)) == t (types included) for array-free option trees; '
                'list(yaml.load_all(yaml.dump_all(ts))) == ts',
                'no Python object is stored under two keys of one configuration (aliasing has no counterpart in the model)',
-               'option values are scalars, None, lists/tuples without arrays, arrays of scalars, and dicts of these']
+               'option values are scalars, None, lists/tuples without arrays, arrays of scalars, and dicts of these',
+               'to_yaml_file / from_yaml_file format str(config) for their log line whatever the log level: a configuration whose '
+               'imf_opts / envelope_opts / extrema_opts entry is not a dict raises AttributeError there (modelled as is; the '
+               'round-trip theorems assume the three stage entries are dicts)']
 RULE = ('edit sequences: 3-12 (quick) / up to 40 (thorough) get/set/del operations with slash keys of depth 1-4 on the '
         'default configuration of a random variant or on a random nested dict; keys are mostly existing paths, plus new '
         'leaves, missing parents, non-dict parents (scalar, list, tuple, array) and too-deep keys; values are scalars, None, '
